@@ -252,7 +252,10 @@ def gen_recipe(rng, prog):
             # does not look inside data regions); kept in the recipe format
             # for experiments only
             "update": False,
-            "chunk_after": rng.random() < 0.15}
+            "chunk_after": rng.random() < 0.15,
+            # the statement that follows the (first) data region is moved to
+            # the end of the region afterwards: the clauses must follow
+            "move_in": rng.random() < 0.2}
 
 
 def program_text(prog):
